@@ -46,6 +46,13 @@ func runChain(c *h.Ctx, cs chain.Case) {
 	if dh := chain.DecideIdentityHook(b); dh.Allowed && !r.R[9] {
 		c.Fail("C04/chain/hook/allowed-with-invalid-token:"+devClass(cs), "ExecutionAllowedWithArgsHook returned nil although a token of the chain is expired / not yet active (deviations %v)\ncase: %+v", cs.Dev, cs)
 	}
+	if !r.R[9] {
+		for _, hk := range chain.OddHooks {
+			if do := chain.DecideOddHook(b, hk); do.Allowed {
+				c.Fail("C04/chain/hook-"+hk+"/allowed-with-invalid-token", "ExecutionAllowedWithArgsHook (hook: %s) returned nil although a token of the chain is expired / not yet active (deviations %v)", hk, cs.Dev)
+			}
+		}
+	}
 	if d.Allowed && !r.R[9] {
 		c.Fail("C04/chain/allowed-with-invalid-token:"+devClass(cs), "ExecutionAllowed returned nil although a token of the chain is expired / not yet active (deviations %v)\ncase: %+v", cs.Dev, cs)
 	}
